@@ -30,6 +30,15 @@ Theorem C17_layout_valid : forall ver ns p r olds nodes,
 Proof. exact rebalance_valid. Qed.
 Print Assumptions C17_layout_valid.
 
+(* (2'') the same over the whole history: [reachable] = the empty layout of a fresh namespace closed under
+   "rebalance on any good node set" (nodes lost and added between rounds); every reachable layout can be
+   rebalanced again, on every good node set with >= r nodes, into a valid layout *)
+Theorem C17_chain_valid : forall ver ns p r olds nodes,
+  reachable ver ns p r olds -> good_nodes nodes -> (r <= N.of_nat (length nodes))%N ->
+  exists l, rebalance ver ns p r olds nodes = Ok l /\ valid_layout (map fst nodes) (N.to_nat p) (N.to_nat r) l.
+Proof. exact rebalance_chain_valid. Qed.
+Print Assumptions C17_chain_valid.
+
 (* (2') the V2 invariant behind (2): load maps consistent with the layout, lists valid — established by
    the fill phase and preserved by every moveIfUnbalanced step, which never panics *)
 Theorem C17_v2_fill_establishes_invariant : forall h p r olds (ring : list (list N)),
@@ -45,6 +54,13 @@ Theorem C17_v2_move_preserves_invariant : forall (ring : list (list N)), NoDup r
   exists ls' parts' b, move_step ls parts = Ok (ls', parts', b) /\ Jinv ring p r ls' parts'.
 Proof. exact move_step_inv. Qed.
 Print Assumptions C17_v2_move_preserves_invariant.
+
+(* totality of the move loop with the code's own bound (maxMoved = r * p, i.e. at most r * p + 1 calls) as fuel *)
+Theorem C17_v2_move_loop_total : forall (ring : list (list N)), NoDup ring -> ring <> [] ->
+  forall p r fuel ls parts, Jinv ring p r ls parts ->
+  exists parts', move_loop fuel ls parts = Ok parts' /\ length parts' = p /\ Forall (list_ok ring r) parts'.
+Proof. exact move_loop_inv. Qed.
+Print Assumptions C17_v2_move_loop_total.
 
 (* (3) determinism: the result is a function of the node *set* — the order in which the Go map
    delivers the nodes does not matter (and the model is a function, so equal inputs give equal layouts) *)
